@@ -50,6 +50,20 @@ open MdIt.Block
 #check @tokenize_tokSpec
 #check @ruleAt_progress
 #check @ruleAt_false_same
+-- C11, C14
+#check @fence_verbatim
+#check @indented_verbatim
+#check @fenceScan_verbatim
+#check @codeScan_verbatim
+#check @viewPiece_zero
+#check @viewPiece_four
+#check @docOf_shows
+#check @list_shape
+#check @tokenize_shape
+#check @markTight_good
+#check @tightenItems_items
+#check @Shaped.list_children
+#check @Shaped.item_parent
 #print axioms silent_pure_hr
 #print axioms silent_pure_heading
 #print axioms silent_pure_code
@@ -96,3 +110,16 @@ open MdIt.Block
 #print axioms tokenize_tokSpec
 #print axioms ruleAt_progress
 #print axioms ruleAt_false_same
+#print axioms fence_verbatim
+#print axioms indented_verbatim
+#print axioms fenceScan_verbatim
+#print axioms codeScan_verbatim
+#print axioms viewPiece_zero
+#print axioms viewPiece_four
+#print axioms docOf_shows
+#print axioms list_shape
+#print axioms tokenize_shape
+#print axioms markTight_good
+#print axioms tightenItems_items
+#print axioms Shaped.list_children
+#print axioms Shaped.item_parent
